@@ -46,3 +46,14 @@ Example C18_src_examples :
   gen_Pointer_to_json_value [47;97] = Ret (VStr [47;97]) /\
   (exists t, gen_Token_from_str [97;47;98] = Ret t /\ cow_text (Token_inner t) = [97;126;49;98]).
 Proof. repeat split; try (eexists; vm_compute; split; reflexivity); try (eexists; vm_compute; reflexivity); vm_compute; reflexivity. Qed.
+
+(* Display / to_string, re-translated (`fn fmt` read as the text it writes): a pointer prints exactly its text *)
+Theorem C18_src_display_is_text : forall p : str, gen_Pointer_display p = Ret p /\ gen_PointerBuf_display p = Ret p.
+Proof. exact gen_display_pointer. Qed.
+Print Assumptions C18_src_display_is_text.
+
+(* ... and a token prints its DECODED text (what the crate itself uses as the member name an assign creates) *)
+Theorem C18_src_token_display_is_decoded : forall t : Token,
+  gen_Token_display t = Ret (decoded (cow_text (Token_inner t))).
+Proof. exact gen_display_token. Qed.
+Print Assumptions C18_src_token_display_is_decoded.
